@@ -5,7 +5,8 @@ import os, sys
 sys.path.insert(0, os.path.dirname(os.path.abspath(__file__)))
 import bodies2 as _b2
 from bodies2 import OPT_HINT
-from derived_common import newtype_items
+from derived_common import newtype_items, r17_chunks, r17_iter
+LIST_HINTS = []
 
 F_HS = "src/tls_handshake.rs"
 _types = [it for it in _b2.UNIT["items"] if it["kind"] in ("struct", "enum", "newtype_enum")]
@@ -320,7 +321,7 @@ UNIT = {
     "name": "hellos",
     "needs_expanded": True,
     "property": ["C04", "C06", "C11", "C01"],
-    "prelude": ["shim_nom.rs"],
+    "prelude": ["shim_nom.rs", "shim_std.rs"],
     "items": _types + _b2_items + [
         {"file": "-", "kind": "inline", "name": "hello-contracts", "text": SPEC},
         {"file": F_HS, "kind": "impl", "name": "TlsServerHelloContents", "methods": {
@@ -350,8 +351,9 @@ UNIT = {
 """},
             "get_ciphers": {"skip": True},
         }},
-        {"file": F_HS, "kind": "fn", "name": "parse_cipher_suites", "external_body": True, "contract": "    ensures cs_post(i@, len as int, r),"},
-        {"file": F_HS, "kind": "fn", "name": "parse_compressions_algs", "external_body": True, "contract": "    ensures comp_post(i@, len as int, r),"},
+        # R17: the iterator-adapter chain named as a shim function (verus/shim_std.rs); guards, slicing and the closure body verbatim
+        {"file": F_HS, "kind": "fn", "name": "parse_cipher_suites", "subst": [r17_chunks("TlsCipherSuiteID")], "splices": LIST_HINTS, "contract": "    ensures cs_post(i@, len as int, r),"},
+        {"file": F_HS, "kind": "fn", "name": "parse_compressions_algs", "subst": [r17_iter("TlsCompressionID")], "splices": LIST_HINTS, "contract": "    ensures comp_post(i@, len as int, r),"},
         {"file": F_HS, "kind": "fn", "name": "parse_tls_handshake_client_hello", "rlimit": 400,
          "subst": SID_SUBST,
          "splices": [
